@@ -405,10 +405,11 @@ def classify_error(stderr):
     return "other"
 
 
-def run_cases(cases, workdir, name="cases", progs=None):
-    """cases: list of (id:int, coq_decl:str, coq_obs:str); progs: {id: (Sem2.prog term, rank list)}.
+def run_cases(cases, workdir, name="cases", progs=None, specs=None):
+    """cases: list of (id:int, coq_decl:str, coq_obs:str); progs: {id: (Sem2.prog term, rank list)}; specs: {id: Spec.sval term}.
     Returns (ok, mismatching (id, code), log, failing checker (id, code))."""
     progs = progs or {}
+    specs = specs or {}
     if not cases:
         return True, [], "", []
     shards = []
@@ -419,7 +420,7 @@ def run_cases(cases, workdir, name="cases", progs=None):
         sh = shards[ix]
         path = os.path.join(workdir, "%s_%d.v" % (name, ix))
         with open(path, "w") as f:
-            f.write("From Coq Require Import List NArith. Import ListNotations.\nRequire Import Gen Corr GenU CorrS Sem2 Check Overlap.\n")
+            f.write("From Coq Require Import List NArith. Import ListNotations.\nRequire Import Gen Corr GenU CorrS Sem2 Check Overlap Spec.\n")
             f.write("Definition cases : list (nat * (decl * xres)) := [\n" + ";\n".join("(%d, (%s, %s))" % c for c in sh) + "].\n")
             f.write("Definition M := Eval vm_compute in xmismatches cases.\nPrint M.\n")
             pl = [(c[0],) + progs[c[0]][:2] for c in sh if c[0] in progs]
@@ -427,6 +428,9 @@ def run_cases(cases, workdir, name="cases", progs=None):
             pf = [(c[0], progs[c[0]][0], progs[c[0]][2]) for c in sh if c[0] in progs and progs[c[0]][2] != "[]"]
             f.write("Definition obsF : list (nat * (Sem2.prog * list (nat * nat))) := [\n" + ";\n".join("(%d, (%s, %s))" % x for x in pf) + "].\n")
             f.write("Definition C := Eval vm_compute in flat_map (fun c => if Overlap.c05b (fst (snd c)) (snd (snd c)) then [] else [(fst c, 20)]) obsF.\nPrint C.\n")
+            sl = [(c[0], c[1], specs[c[0]]) for c in sh if c[0] in specs]
+            f.write("Definition specs : list (nat * (decl * sval)) := [\n" + ";\n".join("(%d, (%s, %s))" % x for x in sl) + "].\n")
+            f.write("Definition V := Eval vm_compute in flat_map (fun c => match spec_code (fst (snd c)) (snd (snd c)) with 0 => [] | k => [(fst c, k)] end) specs.\nPrint V.\n")
             f.write("Definition K := Eval vm_compute in flat_map (fun c => match check_code (fst (snd c)) (snd (snd c)) with 0 => [] | k => [(fst c, k)] end) obsprogs.\nPrint K.\n")
             f.write("Definition E := Eval vm_compute in flat_map (fun c => match fst (explore_code (fst (snd c))) with 0 => [] | k => [(fst c, k + 10)] end) obsprogs.\nPrint E.\n")
         rc, out = vlib.coqc_file(path, timeout=900)
@@ -465,6 +469,12 @@ def run_cases(cases, workdir, name="cases", progs=None):
             if not m:
                 ok = False
                 log += "cannot parse C05 checker output: " + out[-500:]
+                continue
+            chk += [(int(a), int(b)) for a, b in re.findall(r"\((\d+),\s*(\d+)\)", m.group(1))]
+            m = re.search(r"V\s*=\s*\[(.*?)\]\s*:\s*list \(nat \* nat\)", out, re.S)
+            if not m:
+                ok = False
+                log += "cannot parse specification-value output: " + out[-500:]
                 continue
             chk += [(int(a), int(b)) for a, b in re.findall(r"\((\d+),\s*(\d+)\)", m.group(1))]
     return ok, bad, log, chk
@@ -608,9 +618,16 @@ def _stage(seed, tier, want_malformed):
                 progs[r["id"]] = obs_prog(r["decl"], r["obs"])
             except Exception as ex:
                 r["problems"].append("unparsed: cannot express the observed program: %r" % ex)
-    ok, bad, log, chk = run_cases(cases, mod, "cases_s", progs)
+    specs = {}
+    for r in records:
+        if r["id"] and r.get("obs") and r.get("decl") and r["kind"] == "valid":
+            tr = declgen.eval_tree(r["decl"])
+            if tr is not None:
+                specs[r["id"]] = declgen.tree_sval(r["decl"], tr, type_table(r["decl"]))
+    ok, bad, log, chk = run_cases(cases, mod, "cases_s", progs, specs)
     for r in records:
         codes = [c for i, c in chk if i == r["id"]]
+        r["spec_code"] = ([c for c in codes if 30 <= c < 40] or [0])[0]   # 31: Spec.spec_eval differs from the harness's reference value
         r["checker_code"] = ([c for c in codes if c < 10] or [0])[0]     # 1: not well-synchronised (wf), 2: rank conditions fail
         r["explore_code"] = ([c - 10 for c in codes if 10 <= c < 20] or [0])[0]  # 1: model run reads an unwritten variable, 2: model run deadlocks
         r["c05_shape_fails"] = 20 in codes     # the input-free Async providers are not all first-reachable without a wait
@@ -627,6 +644,9 @@ def _stage(seed, tier, want_malformed):
         r["model_mismatch"] = r["id"] in badmap
         k = badmap.get(r["id"], 0)
         r["mismatch_kinds"] = [n for b, n in ((1, "verdict"), (2, "sig"), (4, "items")) if k & b]
+        if r.get("spec_code"):
+            r["model_mismatch"] = True
+            r["mismatch_kinds"].append("value")
     keep = os.path.join(vlib.CACHE, "stage", "S-src-%s-%s" % (seed, tier))
     shutil.rmtree(keep, ignore_errors=True)
     shutil.copytree(mod, keep, ignore=shutil.ignore_patterns("*.vo", "*.glob", "*.aux", "*.vok", "*.vos"))
